@@ -968,13 +968,38 @@ def normalised(vec):
     return {k: v / n for k, v in vec.items()}
 
 
-def vec_diff(real, want, tol=TOL):
+def vec_diff(real, want, tol=TOL, slack=None):
+    """largest deviation beyond the tolerance; `slack` = (per-key allowance, relative allowance) from `cut_slack`"""
     worst = 0.0
+    per, rel = slack if slack else ({}, 0.0)
     for k in set(real) | set(want):
         d = abs(real.get(k, 0j) - want.get(k, 0j))
-        if d > tol + tol * abs(want.get(k, 0j)):
+        if d > tol + (tol + 2 * rel) * abs(want.get(k, 0j)) + per.get(k, 0.0):
             worst = max(worst, d)
     return worst
+
+
+NATIVE_CUT = 4e-6   # exqalibur's StateVector discards real / imaginary parts below 1e-6 of a component when components
+                    # are added; the scale between the model's un-normalised contributions and the native values is
+                    # within [1/3, 3] (input coefficients of modulus 1/2 .. 2), hence the factor 4
+
+
+def cut_slack(raw):
+    """allowance for the native cut-off: `raw` = the exact un-normalised contributions [(key, complex)] whose sum per
+    key is the evolved component.  A contribution (or an accumulated component) whose real or imaginary part is below
+    the cut may be missing from the native result; returns (per-key allowance after normalisation, relative allowance
+    for the renormalisation of everything else)."""
+    acc, s = {}, {}
+    for k, c in raw:
+        acc[k] = acc.get(k, 0j) + c
+        s[k] = s.get(k, 0.0) + (abs(c.real) if abs(c.real) < NATIVE_CUT else 0.0) \
+            + (abs(c.imag) if abs(c.imag) < NATIVE_CUT else 0.0)
+    for k, v in acc.items():
+        s[k] += (abs(v.real) if abs(v.real) < NATIVE_CUT else 0.0) + (abs(v.imag) if abs(v.imag) < NATIVE_CUT else 0.0)
+    n = math.sqrt(sum(abs(v) ** 2 for v in acc.values()))
+    if n == 0:
+        return {}, 0.0
+    return {k: x / n for k, x in s.items() if x}, math.sqrt(sum(x * x for x in s.values())) / n
 
 
 COEFS = [["1", "0"], ["1", "0"], ["0", "1"], ["-1", "0"], ["2", "0"], ["1", "1"], ["1/2", "0"], ["0", "-3/2"]]
@@ -1095,10 +1120,13 @@ def judge_evolve(chk, case):
         if want is None:
             chk.count("evolve", "degenerate")
             continue
-        bad = vec_diff(run["evolve"], want)
+        slack = cut_slack([(tuple(k), contrib_value(a, q)) for k, a, q in contribs])
+        if slack[0]:
+            chk.count("evolve", "native-cut-allowance")
+        bad = vec_diff(run["evolve"], want, slack=slack)
         if bad:
             od = normalised(oracle_evolve(case, obs["mats"], run["terms"]))
-            if od is None or vec_diff(run["evolve"], od, 1e-7):
+            if od is None or vec_diff(run["evolve"], od, 1e-7, slack=slack):
                 return ("violation", "loss-evolve-differs",
                         f"LossSimulator.evolve on {run['terms']} differs by {bad:.3g} from the state vector of the "
                         "enlarged lossless circuit truncated to the original modes")
@@ -1295,12 +1323,13 @@ def judge_lcapply(chk, case, res):
     if want is None:
         return None
     want = {k: v for k, v in want.items() if abs(v) > 0}
-    bad = vec_diff(real, want)
+    slack = cut_slack([(tuple(k), contrib_value(a, q)) for k, a, q in cur])
+    bad = vec_diff(real, want, slack=slack)
     if res.get("m") != case["m"] + len(case["steps"]):
         bad = bad or 1.0
     if bad:
         od = oracle_lcapply(case)
-        if vec_diff(real, od, 1e-7) or res.get("m") != case["m"] + len(case["steps"]):
+        if vec_diff(real, od, 1e-7, slack=slack) or res.get("m") != case["m"] + len(case["steps"]):
             return ("violation", "lc-apply-differs",
                     f"LC.apply steps {case['steps']} on {case['terms']}: the result differs by {bad:.3g} from coupling the "
                     "mode to a fresh vacuum mode with BS.H of transmission 1 - loss")
